@@ -62,21 +62,21 @@ Qed.
 (* the cookie of an exposed entry with a non-empty value that is new / changed / newly exposed, or of any exposed
    entry when the update is forced, is in the jar after update_exposed, with that value and the lifetime of the
    session cookie *)
-Lemma update_exposed_sends : forall now age force s x k v ex,
+Lemma update_exposed_sends : forall now age force resend s x k v ex,
   ssorted (s_data s) -> dfind k (s_data s) = Some (v, true) -> v <> [] ->
-  force = true \/ entry_changed (s_copy s) k v = true ->
+  force = true \/ resend = true \/ entry_changed (s_copy s) k v = true ->
   age_exp now age = Some ex ->
-  In (k, (v, ex)) (update_exposed now age force s x).
+  In (k, (v, ex)) (update_exposed now age force resend s x).
 Proof.
-  intros now age force s x k v ex Hs Hf Hv Hch Hex.
+  intros now age force resend s x k v ex Hs Hf Hv Hch Hex.
   unfold update_exposed. apply filter_In. split.
   2:{ cbn [fst]. unfold is_exposed. rewrite Hf. reflexivity. }
   destruct (dfind_In_sorted k (v, true) (s_data s) Hs Hf) as (d1 & d2 & -> & Hk).
   rewrite exposed_sets_app. cbn [exposed_sets].
   apply exposed_sets_keeps; [exact Hk|].
-  assert ((true && (force || match dfind k (s_copy s) with
+  assert ((true && (force || resend || match dfind k (s_copy s) with
                              | Some (v2, e2) => negb e2 || negb (beqb v v2)
                              | None => true end)) = true) as ->.
-  { cbn [andb]. destruct Hch as [->|Hc]; [reflexivity|]. unfold entry_changed in Hc. rewrite Hc. apply orb_true_r. }
+  { cbn [andb]. destruct Hch as [->|[->|Hc]]; [reflexivity|apply orb_true_iff; left; apply orb_true_r|]. unfold entry_changed in Hc. rewrite Hc. apply orb_true_r. }
   unfold xset. destruct v as [|c0 v0]; [contradiction Hv; reflexivity|]. rewrite Hex. apply In_xput_same.
 Qed.
